@@ -68,7 +68,10 @@ def module_case(arg):
     out = {"idx": arg["idx"], "viol": [], "cases": 0, "keys": 0, "unspec": 0, "ok_structs": 0, "rejected": 0,
            "aborts": [], "distinct": [], "mono_series": 0, "mono_items": 0, "built": False, "sample": None,
            "features": {}}
-    gm = cppsuite.gen_module(arg["seed"], "mod", arg["idx"], arg.get("profile"))
+    profile = arg.get("profile")
+    if profile is None and arg["idx"] % 3 == 1:
+        profile = {"union_bias": True}  # every third module: tagged unions over twin sub-structures
+    gm = cppsuite.gen_module(arg["seed"], "mod", arg["idx"], profile)
     out["rejected"] = len(gm["rejected"])
     out["reject_reasons"] = [r["why"][:80] for r in gm["rejected"]][:4]
     if gm["m"] is None:
